@@ -261,7 +261,13 @@ class Scheduler(object):
         if self.coin("poll_skip"):
             self.stats["fault_poll_skip"] = self.stats.get("fault_poll_skip", 0) + 1
             return
-        self.do(["dispatch"])
+        n = self.do(["dispatch"])
+        if self.profile.get("dispatch_all"):
+            # as StackStorm does: keep asking until nothing more is on offer
+            g = 0
+            while n and g < 20:
+                g += 1
+                n = self.do(["dispatch"])
         if self.coin("poll_twice"):
             self.stats["fault_poll_twice"] = self.stats.get("fault_poll_twice", 0) + 1
             self.do(["dispatch"])
@@ -288,7 +294,11 @@ class Scheduler(object):
         w = self.world
         self.do(["start"])
         if w.status not in TERMINAL_WF:
-            self.do(["dispatch"])
+            n = self.do(["dispatch"])
+            g = 0
+            while n and self.profile.get("dispatch_all") and g < 20:
+                g += 1
+                n = self.do(["dispatch"])
         guard = 0
         while True:
             guard += 1
@@ -298,7 +308,9 @@ class Scheduler(object):
             self.inject()
             if not len(self.heap):
                 r = self.do(["idle"])
-                if len(self.heap):
+                if len(self.heap) or r:
+                    # something was offered (an empty with-items task completes inside the
+                    # dispatch and leaves nothing in flight): poll again
                     continue
                 if self.settle():
                     continue
@@ -347,7 +359,11 @@ class Scheduler(object):
             return False
         if w.status == "paused" and w.pause_req and self.profile.get("resume_at_rest", True):
             self.do(["request", self.K.choice(["resuming", "running"], "ops", "resume", self.pos)])
-            self.do(["dispatch"])
+            n = self.do(["dispatch"])
+            g = 0
+            while n and self.profile.get("dispatch_all") and g < 20:
+                g += 1
+                n = self.do(["dispatch"])
             return True
         if w.status in TERMINAL_WF and self.did_rerun < self.f.get("max_reruns", 1) and self.f.get("rerun", 0) > 0 \
                 and self.K.u("ops", "rerun", self.did_rerun) < self.f["rerun"]:
